@@ -89,4 +89,10 @@ def big_modules(nsyms_list):
         ax = [pi2v.IMP(syms[i], syms[i + 1]) for i in range(0, n - 1, 2)]
         # claims / proofs reuse OLD symbols after many others have been numbered
         mods.append({'lib': False, 'axioms': ax, 'proofs': [['axiom', 0], ['axiom', len(ax) - 1], ['axiom', 1]]})
+    # a chain of axioms whose every sub-pattern is used twice: the optimised run has more memoisation candidates than the
+    # checker's memory has slots next to the published axioms (the last slot, 255, must still be addressable)
+    for k in ([90] if len(nsyms_list) == 1 else [86, 90, 120]):
+        s = [pi2v.IMP(pi2v.EV(i), pi2v.SV(i)) for i in range(k + 1)]
+        b = [pi2v.IMP(s[i], s[i + 1]) for i in range(k)]
+        mods.append({'lib': False, 'axioms': b, 'proofs': [['axiom', k - 1]]})
     return mods
